@@ -50,3 +50,29 @@ func Err(c context.Context) error {
 
 // Cause is context.Cause with a scheduling point.
 func Cause(c context.Context) error { vrt.Point(); vrt.TouchExternal(false); return context.Cause(c) }
+
+// AfterFunc mirrors context.AfterFunc: f runs in its own (scheduled) goroutine once ctx is done, unless stop
+// was called first.
+func AfterFunc(ctx context.Context, f func()) (stop func() bool) {
+	if !vrt.Active() {
+		return context.AfterFunc(ctx, f)
+	}
+	stopCh := make(chan struct{})
+	decided := false // written and read only between scheduling points of the two parties
+	vrt.GoNamed("context.AfterFunc", func() {
+		if vrt.Select(false, vrt.RecvCase(ctx.Done()), vrt.RecvCase((<-chan struct{})(stopCh))) == 0 && !decided {
+			decided = true
+			vrt.TouchExternal(false)
+			f()
+		}
+	})
+	return func() bool {
+		vrt.Point()
+		if decided {
+			return false
+		}
+		decided = true
+		vrt.Close((chan<- struct{})(stopCh))
+		return true
+	}
+}
